@@ -40,6 +40,7 @@ func vTagVal(name string, max int, ascii bool) string {
 	vAssume(vNoByte(v, '`'))
 	vAssume(vNoByte(v, '\n'))
 	vAssume(vNoByte(v, '\r'))
+	vAssume(vNoByte(v, 0)) // go/scanner rejects NUL
 	if ascii {
 		for i := 0; i < len(v); i++ {
 			vAssume(v[i] < 0x80)
@@ -49,6 +50,16 @@ func vTagVal(name string, max int, ascii bool) string {
 		vAssume(vNoByte(v, '$')) // '$' is covered by the ASCII variant (Go's template names accept unicode letters)
 	}
 	return v
+}
+
+// vSrcText: bytes that may appear inside a // comment of a Go file (what go/scanner accepts)
+func vSrcText(name string, max int) string {
+	c := vndString(name, max)
+	vAssume(vValidUTF8(c))
+	vAssume(vNoByte(c, 0))
+	vAssume(vNoByte(c, '\n'))
+	vAssume(vNoByte(c, '\r'))
+	return c
 }
 
 type vItem struct{ k, v string }
@@ -188,10 +199,9 @@ func H_C06_file_two_areas() {
 	i1 := vItemsN("b", 1, true, 2, 2)
 	o2 := vItemsN("c", 1, true, 1, 2)
 	i2 := vItemsN("d", 2, true, 1, 2)
-	pre := vndStringN("pre", 1)
-	// arbitrary bytes before the declarations: kept inside a comment so the file still parses
+	pre := vSrcText("pre", 1)
+	// arbitrary text before the declarations: kept inside a comment so the file still parses
 	pretext := "// " + pre + "\n"
-	vAssume(vNoByte(pre, '\n'))
 	structs := []vStructSrc{
 		{name: "A", fields: []vField{
 			{name: "X", typ: "string", hasTag: true, tag: vItemsText(o1, " "), comment: "// x @tag " + vItemsText(i1, " ")},
@@ -232,8 +242,7 @@ func H_C06_file_unicode() {
 
 // a file without annotations is written back unchanged
 func H_C06_file_plain() {
-	c := vndString("c", 3)
-	vAssume(vNoByte(c, '\n'))
+	c := vSrcText("c", 3)
 	vAssume(vNoByte(c, '@'))
 	structs := []vStructSrc{{name: "A", fields: []vField{
 		{name: "X", typ: "string", hasTag: true, tag: "json:\"x\"", comment: "// " + c},
@@ -243,5 +252,71 @@ func H_C06_file_plain() {
 	got, err := vRunInjector("p.go", src, f)
 	vAssert(err == nil, "C06 file: processing succeeds")
 	vAssert(got == src, "C06 file: fields without an @tag comment are untouched")
+	vReach("end")
+}
+
+// the same comment text on several fields of one file (and a key it overrides in each of them)
+func H_C06_file_same_comment() {
+	v := vTagVal("v", 2, true)
+	k := vKey("k", 2)
+	vAssume(k != "json")
+	vAssume(k != "extra")
+	comment := "// @tag " + k + ":\"" + v + "\" extra:\"e\""
+	structs := []vStructSrc{
+		{name: "A", fields: []vField{
+			{name: "X", typ: "string", hasTag: true, tag: "json:\"x\" " + k + ":\"old\"", comment: comment},
+			{name: "Y", typ: "int", hasTag: true, tag: k + ":\"keep\" json:\"y\"", comment: comment},
+		}},
+		{name: "B", fields: []vField{
+			{name: "Z", typ: "bool", hasTag: true, tag: "json:\"z\"", comment: comment},
+		}},
+	}
+	src, f := vBuildSource("", structs, "")
+	got, err := vRunInjector("s.go", src, f)
+	vAssert(err == nil, "C06 file: processing succeeds")
+	want := vExpectedSource("", structs, "", map[string]string{
+		"A.X": "json:\"x\" " + k + ":\"" + v + "\" extra:\"e\"",
+		"A.Y": k + ":\"" + v + "\" json:\"y\" extra:\"e\"",
+		"B.Z": "json:\"z\" " + k + ":\"" + v + "\" extra:\"e\"",
+	})
+	vAssert(got == want, "C06 file: identical comments on several fields are merged independently")
+	vReach("end")
+}
+
+// an override that makes an earlier literal shorter, with annotated fields after it
+func H_C06_file_shrink() {
+	v := vTagVal("v", 1, true)
+	structs := []vStructSrc{{name: "A", fields: []vField{
+		{name: "X", typ: "string", hasTag: true, tag: "json:\"name,omitempty\"", comment: "// @tag json:\"" + v + "\""},
+		{name: "Y", typ: "int", hasTag: true, tag: "json:\"y\"", comment: "// @tag valid:\"required\""},
+		{name: "Z", typ: "int", hasTag: true, tag: "json:\"zzzzzzzz\" valid:\"old\"", comment: "// @tag valid:\"n\" json:\"z\""},
+	}}}
+	src, f := vBuildSource("", structs, "// tail\n")
+	got, err := vRunInjector("k.go", src, f)
+	vAssert(err == nil, "C06 file: processing succeeds")
+	want := vExpectedSource("", structs, "// tail\n", map[string]string{
+		"A.X": "json:\"" + v + "\"",
+		"A.Y": "json:\"y\" valid:\"required\"",
+		"A.Z": "json:\"z\" valid:\"n\"",
+	})
+	vAssert(got == want, "C06 file: literals that shrink do not disturb later fields")
+	vReach("end")
+}
+
+// an injected key that is a suffix of an existing key with the same value
+func H_C06_suffix_key() {
+	v := vTagVal("v", 2, true)
+	structs := []vStructSrc{{name: "A", fields: []vField{
+		{name: "X", typ: "string", hasTag: true, tag: "curl:\"" + v + "\"", comment: "// @tag url:\"" + v + "\""},
+		{name: "Y", typ: "string", hasTag: true, tag: "valid:\"" + v + "\" json:\"y\"", comment: "// @tag valid:\"" + v + "\""},
+	}}}
+	src, f := vBuildSource("", structs, "")
+	got, err := vRunInjector("x.go", src, f)
+	vAssert(err == nil, "C06 file: processing succeeds")
+	want := vExpectedSource("", structs, "", map[string]string{
+		"A.X": "curl:\"" + v + "\" url:\"" + v + "\"",
+		"A.Y": "valid:\"" + v + "\" json:\"y\"",
+	})
+	vAssert(got == want, "C06 file: keys are compared whole, an already present value is kept once")
 	vReach("end")
 }
